@@ -9,8 +9,14 @@ import json, os, re, shutil, subprocess, sys, time
 
 VERIF = os.path.dirname(os.path.dirname(os.path.abspath(__file__)))
 SPEC = os.path.join(VERIF, "spec")
-HARNESS = os.path.join(VERIF, "harness")
-HARNESS_NOSTD = os.path.join(VERIF, "harness_nostd")
+# The registered checks always use /verif/harness (path dependencies on /repo).  tools/mutcheck.py sets
+# these variables to run the same checks against a scratch copy of the repository (mutation testing)
+# without touching /repo, /verif/evidence or /verif/replays.
+HARNESS = os.environ.get("VERIF_HARNESS", os.path.join(VERIF, "harness"))
+HARNESS_NOSTD = os.environ.get("VERIF_HARNESS_NOSTD", os.path.join(VERIF, "harness_nostd"))
+EVIDENCE_DIR = os.environ.get("VERIF_EVIDENCE_DIR", os.path.join(VERIF, "evidence"))
+REPLAY_DIR = os.environ.get("VERIF_REPLAY_DIR", os.path.join(VERIF, "replays"))
+WORK_DIR = os.environ.get("VERIF_WORK_DIR", os.path.join(VERIF, "work"))
 TLA_JAR = "/opt/veriftools/tla/tla2tools.jar:/opt/veriftools/tla/CommunityModules-deps.jar"
 
 
@@ -77,7 +83,7 @@ class Ctx:
     def __init__(self, pid, tier, seed, level="model_checking"):
         self.pid, self.tier, self.seed, self.level = pid, tier, seed, level
         self.t0 = time.time()
-        self.work = os.path.join(VERIF, "work", "%s_%s_%d" % (pid, tier, os.getpid()))
+        self.work = os.path.join(WORK_DIR, "%s_%s_%d" % (pid, tier, os.getpid()))
         shutil.rmtree(self.work, ignore_errors=True)
         os.makedirs(self.work, exist_ok=True)
         self.states = 0
@@ -102,7 +108,7 @@ class Ctx:
         self.is_replay = False
 
     # -- exhaustive model checking --------------------------------------------------------
-    def mc(self, module, cfg, workers=4, env=None, timeout=1800, need_actions=None, heap="6g"):
+    def mc(self, module, cfg, workers=4, env=None, timeout=1800, need_actions=None, heap="6g", stim_out=None):
         """Exhaustive TLC run of a model; an invariant violation here is a defect of the model
         (it cannot depend on /repo), hence a tool error."""
         rc, out, dt = tlc(module, cfg, self.work, workers=workers, env=env, timeout=timeout, coverage=True, heap=heap)
@@ -117,6 +123,17 @@ class Ctx:
         for act in (need_actions or []):
             if cov.get(act, 0) == 0:
                 raise ToolError("vacuity: action %s of %s never taken" % (act, module))
+        if stim_out:
+            # stimuli printed by the model as  "STIM <json array of events>"  (one execution per line)
+            n = 0
+            with open(stim_out, "w") as f:
+                for line in out.splitlines():
+                    if line.startswith('"STIM '):
+                        f.write(json.loads(line)[5:] + "\n")
+                        n += 1
+            if n == 0:
+                raise ToolError("model %s emitted no stimuli" % module)
+            log("[mc] %s: %d stimuli" % (module, n))
         self.states += st[1]
         self.transitions += st[0]
         self.mc_runs.append({"module": module, "cfg": cfg, "generated": st[0], "distinct": st[1],
@@ -125,7 +142,8 @@ class Ctx:
         return out
 
     # -- harness ------------------------------------------------------------------------------
-    def cargo_build(self, pkg, release=False, workspace=HARNESS, features=None):
+    def cargo_build(self, pkg, release=False, workspace=None, features=None):
+        workspace = workspace or HARNESS
         cmd = ["cargo", "build", "--offline", "-q", "-p", pkg]
         if release:
             cmd.append("--release")
@@ -276,7 +294,7 @@ class Ctx:
         for r in self.rejections:
             k = match_finding(self.findings, self.pid, r)
             (known if k else viol).append((r, k))
-        outdir = os.path.join(VERIF, "replays", self.pid)
+        outdir = os.path.join(REPLAY_DIR, self.pid)
         lines = []
         seen_known = {}
         for r, k in known:
@@ -315,8 +333,8 @@ class Ctx:
               "coverage": cov, "assumptions": self.assumptions, "wall_s": round(wall, 1),
               "violations": len(viol), "notes": self.notes}
         if not self.is_replay:   # a replay judges one stimulus; it is not a record of coverage
-            os.makedirs(os.path.join(VERIF, "evidence"), exist_ok=True)
-            with open(os.path.join(VERIF, "evidence", self.pid + ".json"), "w") as f:
+            os.makedirs(EVIDENCE_DIR, exist_ok=True)
+            with open(os.path.join(EVIDENCE_DIR, self.pid + ".json"), "w") as f:
                 json.dump(ev, f, indent=1)
         for l in lines:
             print(l, flush=True)
